@@ -74,3 +74,13 @@ known("C07","C07-v2-emptied-set-returned-as-null","through the SDK v2 client a s
  ["C07|client-v2|wrong-result|explained-by-empty-container-returned-as-NULL"] +
  ["C07|client-v2|invalid-update-accepted|explained-by-%s+empty-container-returned-as-NULL" % m for m in ("missing-path-stored-as-NULL","lenient-ADD","missing-path-stored-as-NULL+lenient-ADD")],
  {"expression":"DELETE ss :ssall","item":"{ss: SS[x,y]}","observed":"GetItem returns ss: NULL"})
+fixed("C09","C09-juxtaposed-conditions","a condition expression followed by further tokens","'a = :x b = :y' and 'a = :x and b = :y' evaluated only the last clause; an empty condition dereferenced nil")
+fixed("C09","C09-update-parsed-loosely","update expressions and document paths are parsed strictly","garbage before the first clause keyword was skipped, a trailing clause keyword without actions was accepted, 'a = b.' took EOF for the member name")
+fixed("C09","C09-nul-byte-truncates","a NUL byte in an expression is an illegal character","everything after an embedded NUL byte was silently ignored")
+fixed("C09","C09-function-arity-panic","calling a function with the wrong number of operands","attribute_exists() / begins_with(a) crashed with index out of range")
+fixed("C09","C09-between-missing-bound","BETWEEN requires both bounds","'a BETWEEN :lo AND' was evaluated with EOF as the upper bound")
+fixed("C09","C09-chained-comparators","a comparator's operands cannot be conditions","'a = b = c' evaluated to false instead of being rejected")
+fixed("C09","C09-in-without-parenthesis","IN requires a parenthesised operand list","'a IN b )' was accepted")
+fixed("C09","C09-in-empty-list","IN with an empty operand list is rejected","'a IN ( )' evaluated to false")
+fixed("C09","C09-add-delete-nontoplevel-silent","ADD and DELETE on anything but a top-level attribute","'ADD m.x :n' / 'ADD a + b :n' succeeded without doing anything")
+fixed("C09","C09-condition-as-function-operand","a condition cannot be the operand of a function","'attribute_exists(a = b)' was evaluated")
